@@ -103,11 +103,11 @@ def run(tier):
     gates = load_gates()
     c = common.Check('C09', tier, 'SMT queries on the whole-return model composed from path-exhaustive symbolic summaries of the real line definitions: "gate affirmative and consulted and solved" must be unsat; witnesses replayed on the real Solver',
                      ['Field.value of every line in the demand closure of Form 1040 (all years)', 'habutax.form.Form.threshold', 'whole-return composition (hv.retmodel) validated differentially against habutax.solver.Solver'])
-    c.bounds = {'years': [2021, 2022, 2023], 'requested_forms': ['1040'], 'copies_per_input_form': K, 'copies_total': S, 'amounts': '|x| <= 1e8, whole cents', 'filing_status': 'symbolic', 'number_dependents': '0..5'}
-    c.outside = gates['outside'] + ['NC forms (gates of nc_d-400 are checked in the thorough tier only)' if tier == 'quick' else 'none beyond the bounds']
+    c.bounds = {'years': [2021, 2022, 2023], 'requested_forms': [['1040'], ['1040', 'nc_d-400']], 'copies_per_input_form': K, 'copies_total': S, 'amounts': '|x| <= 1e8, whole cents', 'filing_status': 'symbolic', 'number_dependents': '0..5'}
+    c.outside = gates['outside']
     c.stubs = ['figure_tax -> uninterpreted FT(status,x) in [0,0.37x]', 'InputStore -> every catalogued input present with a symbolic value of its type']
     c.assumptions = ['oracle/gates.json is the specification of the unsupported situations', 'the whole-return model over-approximates every real solved run inside the bound (validated differentially on witnesses)']
-    retmodel.preload([(y, K, {'S': S, 'ft': 'uf', 'cents': True}) for y in (2021, 2022, 2023)])
+    retmodel.preload([(y, K, {'S': S, 'ft': 'uf', 'cents': True}) for y in (2021, 2022, 2023)])   # summaries of every form of the year, NC included
     os.environ['HV_PRELOADED'] = '1'
     tasks = []
     for y in (2021, 2022, 2023):
@@ -115,10 +115,12 @@ def run(tier):
         nchunks = 5
         for i in range(nchunks):
             tasks.append((y, K, S, names[i::nchunks], gates['limit_gates'] if i == 0 else [], ['1040']))
+        for nm in gates.get('nc_gates', {}).get(str(y), []):
+            tasks.append((y, K, S, [nm], [], ['1040', 'nc_d-400']))
     results = common.pmap(task, tasks)
     mp = {}
     for r in results:
-        mp[r['year']] = (r.get('model_lines', 0), r.get('model_paths', 0))
+        mp[r['year']] = max(mp.get(r['year'], (0, 0)), (r.get('model_lines', 0), r.get('model_paths', 0)))
         for nm, res, dt, desc in r['obl']:
             if res == 'vacuous':
                 c.inconclusive.append('vacuous twin: ' + nm)
